@@ -7,6 +7,7 @@
 package c10
 
 import (
+	"time"
 	"encoding/json"
 	"fmt"
 
@@ -52,7 +53,7 @@ func Meta() core.Meta {
 		Engine: "c10", Property: "C10", Level: "exploration",
 		Rule:        "case = one run: a real client configured from a generated krb5.conf (etype lists, forwardable/proxiable/canonicalize, renew_lifetime, ticket_lifetime, noaddresses, transport) with a keytab or password credential or a credential cache written by the reference implementation performs 3-30 operations (login, service-ticket requests for repeated and new SPNs in its own and in foreign realms, waits that land before/at/after ticket and TGT end times, renewal points and renew-till, destroy) against reference KDCs with a drawn policy (pre-authentication and hint layout, salts and iteration counts, maximum lives, optional starttime, address copying) and referral chains of length 0-8 or a cycle; distinct = distinct (configuration class, policy class, operation/outcome sequence); non-trivial = at least one ticket request after a wait, a renewal, a referral or a pre-authentication round trip",
 		SeededQuick: 2500, SeededThorough: 150000,
-		WorkloadProbes: []string{"served-from-cache", "requested-afresh-after-expiry", "tgt-renewed-by-library", "relogin-after-tgt-expiry", "referral-chain-3plus", "referral-cycle", "preauth-with-nondefault-salt", "renewable-requested", "wait-lands-within-1s-of-end", "destroy-then-use", "credential-cache-client", "password-outside-ascii", "etype-lists-separated-by-commas-or-tabs", "keytab-shared-with-other-principals-or-older-keys", "operation-during-outage", "operation-after-outage", "tgt-ended-during-outage", "renewal-point-passed-during-outage"},
+		WorkloadProbes: []string{"served-from-cache", "requested-afresh-after-expiry", "tgt-renewed-by-library", "relogin-after-tgt-expiry", "referral-chain-3plus", "referral-cycle", "preauth-with-nondefault-salt", "renewable-requested", "wait-lands-within-1s-of-end", "destroy-then-use", "credential-cache-client", "password-outside-ascii", "etype-lists-separated-by-commas-or-tabs", "keytab-shared-with-other-principals-or-older-keys", "kdc-clock-differs-from-the-clients", "operation-during-outage", "operation-after-outage", "tgt-ended-during-outage", "renewal-point-passed-during-outage"},
 		Components: map[string]string{
 			"client.Login/AffirmLogin/GetServiceTicket/GetCachedTicket/Destroy, session auto-renewal goroutines, ticket cache, NewASReq/NewTGSReq/setPAData, network code, krb5.conf parser, keytab parser": "real",
 			"sync in client/session.go, client/cache.go": "shim (seeded yields at every lock boundary)",
@@ -173,6 +174,15 @@ func Gen(caseID, tier string) (json.RawMessage, error) {
 	p.KvnoInReply = r.Chance(1, 2)
 	p.TktEtype = r.PickInt(0, 18, 17, 20, 23)
 	p.ExpiryGraceS = int64(r.PickInt(0, 300))
+	if r.Chance(1, 4) {
+		// the KDC's clock is not the client's: ahead or behind by less than the permitted skew (all realms alike)
+		p.ClockOffset = time.Duration(r.PickInt(1, -1, 60, -60, 240, -240, 299, -299)) * time.Second
+	}
+	if p.ClockOffset != 0 {
+		// RFC 4120 3.2.3: a ticket is refused as expired only when it is so by more than the permitted
+		// skew; a KDC without that allowance is conformant only as long as all clocks agree
+		p.ExpiryGraceS = 300
+	}
 	p.FASTNegotiation = r.Chance(1, 2)
 	p.TerseErrors = r.Chance(1, 4)
 	if r.Chance(1, 4) {
